@@ -416,3 +416,29 @@ func liftedSites(root *ssa.Function, pred func(ssa.Instruction) bool) []lifted {
 	})
 	return out
 }
+
+// appendedValues: the elements  append(s, e1, e2)  adds (the values stored into the variadic array), or nil for  append(s, t...).
+func appendedValues(call *ssa.Call) []ssa.Value {
+	if len(call.Call.Args) != 2 {
+		return nil
+	}
+	sl, ok := call.Call.Args[1].(*ssa.Slice)
+	if !ok {
+		return nil
+	}
+	a, ok := sl.X.(*ssa.Alloc)
+	if !ok || a.Comment != "varargs" {
+		return nil
+	}
+	var out []ssa.Value
+	for _, r := range *a.Referrers() {
+		if ia, ok := r.(*ssa.IndexAddr); ok {
+			for _, rr := range *ia.Referrers() {
+				if st, ok := rr.(*ssa.Store); ok && st.Addr == ssa.Value(ia) {
+					out = append(out, st.Val)
+				}
+			}
+		}
+	}
+	return out
+}
